@@ -110,6 +110,9 @@ MUTATIONS = {
         ('reflection', 'tonic-reflection/src/server/mod.rs', r'for en in &msg\.enum_type \{', 'for en in msg.enum_type.iter().skip(1) {', 'first nested enum skipped (unsupported construct: must not alarm)'),
     ],
     'C17': [
+        ('webtrailers', 'tonic-web/src/call.rs', r'map\.append\(header_key, header_value\);', 'map.insert(header_key, header_value);', 'a repeated trailer name keeps only its last value'),
+        ('webtrailers', 'tonic-web/src/call.rs', r'let value = &trailer\[colon \+ 1\.\.\];', 'let value = &trailer[colon..];', 'the value keeps the colon'),
+        ('webtrailers', 'tonic-web/src/call.rs', r'cursor_pos = i \+ 2;', 'cursor_pos = i + 1;', 'the next row starts at the line feed'),
         ('webservice', 'tonic-web/src/client.rs', r'r\.map\(GrpcWebCall::client_response\)', 'r.map(GrpcWebCall::client_request)', 'response body wrapped in the ENCODING adapter'),
         ('webservice', 'tonic-web/src/client.rs', r'\*req\.version_mut\(\) = Version::HTTP_11;', '*req.version_mut() = Version::HTTP_10;', 'request coerced to HTTP/1.0'),
         ('webservice', 'tonic-web/src/call.rs', r'Self::new_client\(inner, Direction::Decode, Encoding::None\)', 'Self::new_client(inner, Direction::Decode, Encoding::Base64)', 'client response decoded as base64 text'),
